@@ -9,35 +9,34 @@ namespace Search
 
 variable {σ π : Type} [PsInv σ]
 
-/-- what an alphaBeta-like function guarantees about scores. -/
+/-- what an alphaBeta-like function guarantees about scores — guarded by the ghost flag (see `QRange`). -/
 def ABRange (Good : Board → Prop) (TTok : σ → Prop) (child : Child σ) : Prop :=
-  ∀ a b d ply nt s, Good s.board → 0 ≤ ply → ply ≤ 63 → WinOK a b → TTok s.ps →
-    TTok (child a b d ply nt s).2.ps ∧ ((child a b d ply nt s).2.aborted = false → RelP ply (child a b d ply nt s).1)
+  ∀ a b d ply nt s, Good s.board → 0 ≤ ply → ply ≤ 63 → (s.nmpOut = false → WinOK a b) → TTA TTok s →
+    TTA TTok (child a b d ply nt s).2 ∧
+      ((child a b d ply nt s).2.aborted = false → (child a b d ply nt s).2.nmpOut = false →
+        RelP ply (child a b d ply nt s).1)
 
-omit [PsInv σ] in
 theorem callChild_range {Good : Board → Prop} {TTok : σ → Prop} (child : Child σ) (hr : ABRange Good TTok child)
     (a b : Score) (d : Int) {ply : Int} (h0 : 0 ≤ ply) (h1 : ply < 63) (nt : NodeType) (s : St σ) (hg : Good s.board)
-    (hw : WinOK a b) (htt : TTok s.ps) :
+    (hw : s.nmpOut = false → WinOK a b) (htt : TTA TTok s) :
     let o := callChild child a b d (wrapS8 (ply + 1)) nt s
-    TTok o.2.ps ∧ (o.2.aborted = false → RelP ply o.1) := by
+    TTA TTok o.2 ∧ (o.2.aborted = false → o.2.nmpOut = false → RelP ply o.1) := by
   have := hr a b d (wrapS8 (ply + 1)) nt s hg (by rw [wrapS8_succ h0 h1]; omega) (by rw [wrapS8_succ h0 h1]; omega) hw htt
   have e := wrapS8_succ h0 h1
   generalize wrapS8 (ply + 1) = q at this e ⊢
   subst e
-  exact ⟨this.1, fun h => neg_relP h0 (this.2 h)⟩
+  exact ⟨this.1, fun h hA => neg_relP h0 (this.2 h hA)⟩
 
 theorem searchRest_range (c : Comp σ π) (L : Limits) {Good : Board → Prop} {TTok : σ → Prop} (child : Child σ)
-    (htk : ∀ ps, TTok ps → PsInv.ok ps)
     (hc : ABSpec c L Good child) (hr : ABRange Good TTok child) (x : ABCtx) (l : ABLoop π) (next : NodeType) (s : St σ)
-    (hg : Good s.board) (h0 : 0 ≤ x.ply) (h1 : x.ply < 63) (htt : TTok s.ps)
-    (ha1 : -10001 ≤ l.alpha) (ha2 : l.alpha ≤ 10000) (hb1 : -10000 ≤ x.beta) (hb2 : x.beta ≤ 32767) :
+    (hg : Good s.board) (h0 : 0 ≤ x.ply) (h1 : x.ply < 63) (htt : TTA TTok s)
+    (hn : s.nmpOut = false → -10001 ≤ l.alpha ∧ l.alpha ≤ 10000 ∧ -10000 ≤ x.beta ∧ x.beta ≤ 32767) :
     let o := searchRest child x l next s
-    TTok o.2.ps ∧ (o.2.aborted = false → RelP x.ply o.1) := by
+    TTA TTok o.2 ∧ (o.2.aborted = false → o.2.nmpOut = false → RelP x.ply o.1) := by
   simp only [searchRest]
-  have c2 := callChild_post c L child hc (wrapS16 (neg l.alpha - 1)) (neg l.alpha) (wrapS8 (x.d - 1)) h0 h1 next s hg
-    (htk _ htt)
+  have c2 := callChild_post c L child hc (wrapS16 (neg l.alpha - 1)) (neg l.alpha) (wrapS8 (x.d - 1)) h0 h1 next s hg htt.1
   have r2 := callChild_range child hr (wrapS16 (neg l.alpha - 1)) (neg l.alpha) (wrapS8 (x.d - 1)) h0 h1 next s hg
-    (winOK_null ha1 ha2) htt
+    (fun hA => winOK_null (hn hA).1 (hn hA).2.1) htt
   simp only at c2 r2
   generalize callChild child (wrapS16 (neg l.alpha - 1)) (neg l.alpha) (wrapS8 (x.d - 1)) (wrapS8 (x.ply + 1)) next s = o2 at c2 r2 ⊢
   have hg2 : Good o2.2.board := by rw [c2.1.board]; exact hg
@@ -46,41 +45,47 @@ theorem searchRest_range (c : Comp σ π) (L : Limits) {Good : Board → Prop} {
   · split
     · exact r2
     · exact callChild_range child hr (neg x.beta) (neg l.alpha) (wrapS8 (x.d - 1)) h0 h1 next o2.2 hg2
-        (winOK_full (by simp only [Score] at *; omega) ha2 hb1 hb2) r2.1
+        (fun hA => by
+          obtain ⟨ha1, ha2, hb1, hb2⟩ := hn (c2.1.mono.a_back hA)
+          exact winOK_full (by simp only [Score] at *; omega) ha2 hb1 hb2) r2.1
 
 theorem searchMove_range (c : Comp σ π) (L : Limits) {Good : Board → Prop} {TTok : σ → Prop} {μ : Board → Nat}
     (sl : ScoreLaws c Good TTok μ) (child : Child σ)
     (hc : ABSpec c L Good child) (hr : ABRange Good TTok child) (x : ABCtx) (l : ABLoop π) (next : NodeType) (s : St σ)
-    (hg : Good s.board) (h0 : 0 ≤ x.ply) (h1 : x.ply < 63) (htt : TTok s.ps)
-    (ha0 : -32767 ≤ l.alpha) (ha2 : l.alpha ≤ 10000) (hlow : 2 ≤ l.quietCnt → -10000 ≤ l.alpha)
-    (hb1 : -10000 ≤ x.beta) (hb2 : x.beta ≤ 32767) :
+    (hg : Good s.board) (h0 : 0 ≤ x.ply) (h1 : x.ply < 63) (htt : TTA TTok s)
+    (hn : s.nmpOut = false → -32767 ≤ l.alpha ∧ l.alpha ≤ 10000 ∧ (2 ≤ l.quietCnt → -10000 ≤ l.alpha) ∧
+      -10000 ≤ x.beta ∧ x.beta ≤ 32767) :
     let o := searchMove c child x l next s
-    TTok o.2.ps ∧ (o.2.aborted = false → RelP x.ply o.1) := by
+    TTA TTok o.2 ∧ (o.2.aborted = false → o.2.nmpOut = false → RelP x.ply o.1) := by
   simp only [searchMove]
   split
   · next hlmr =>
     have hq : c.lmrTry x.d l.quietCnt = true := by
       simp only [Bool.and_eq_true] at hlmr; exact hlmr.1
-    have ha1 : -10001 ≤ l.alpha := by
+    have hn' : s.nmpOut = false → -10001 ≤ l.alpha ∧ l.alpha ≤ 10000 ∧ -10000 ≤ x.beta ∧ x.beta ≤ 32767 := fun hA => by
+      obtain ⟨_, ha2, hlow, hb1, hb2⟩ := hn hA
       have := hlow (sl.lmr_late _ _ hq)
-      simp only [Score] at *; omega
+      exact ⟨by simp only [Score] at *; omega, ha2, hb1, hb2⟩
     split
     · have c1 := callChild_post c L child hc (wrapS16 (neg l.alpha - 1)) (neg l.alpha)
-        (c.lmr x.d (l.moveCnt - 1) x.improving x.nt) h0 h1 next s hg (sl.tt_ok _ htt)
+        (c.lmr x.d (l.moveCnt - 1) x.improving x.nt) h0 h1 next s hg htt.1
       have r1 := callChild_range child hr (wrapS16 (neg l.alpha - 1)) (neg l.alpha)
-        (c.lmr x.d (l.moveCnt - 1) x.improving x.nt) h0 h1 next s hg (winOK_null ha1 ha2) htt
+        (c.lmr x.d (l.moveCnt - 1) x.improving x.nt) h0 h1 next s hg
+        (fun hA => winOK_null (hn' hA).1 (hn' hA).2.1) htt
       simp only at c1 r1
       generalize callChild child (wrapS16 (neg l.alpha - 1)) (neg l.alpha) (c.lmr x.d (l.moveCnt - 1) x.improving x.nt)
         (wrapS8 (x.ply + 1)) next s = o1 at c1 r1 ⊢
       have hg1 : Good o1.2.board := by rw [c1.1.board]; exact hg
       split
       · exact r1
-      · exact searchRest_range c L child sl.tt_ok hc hr x l next o1.2 hg1 h0 h1 r1.1 ha1 ha2 hb1 hb2
+      · exact searchRest_range c L child hc hr x l next o1.2 hg1 h0 h1 r1.1 (fun hA => hn' (c1.1.mono.a_back hA))
     · split
-      · exact ⟨htt, fun _ => relP_zero _⟩
-      · exact searchRest_range c L child sl.tt_ok hc hr x l next s hg h0 h1 htt ha1 ha2 hb1 hb2
+      · exact ⟨htt, fun _ _ => relP_zero _⟩
+      · exact searchRest_range c L child hc hr x l next s hg h0 h1 htt hn'
   · exact callChild_range child hr (neg x.beta) (neg l.alpha) (wrapS8 (x.d - 1)) h0 h1 next s hg
-      (winOK_full ha0 ha2 hb1 hb2) htt
+      (fun hA => by
+        obtain ⟨ha0, ha2, _, hb1, hb2⟩ := hn hA
+        exact winOK_full ha0 ha2 hb1 hb2) htt
 
 /-- the invariant of the move loop at its head (`alpha0` = the node's alpha on entry). -/
 structure ABInv (ply alpha0 : Int) (l : ABLoop π) : Prop where
@@ -109,8 +114,8 @@ theorem maxim_le {value maxim alpha : Int} (hv : InR value) (hva : value ≤ alp
   unfold InR at *
   split <;> omega
 
-/-- `abAfter` on a loop record `l` that `abEnter` has just updated. -/
-theorem abAfter_range (c : Comp σ π) (L : Limits) {Good : Board → Prop} {TTok : σ → Prop} {μ : Board → Nat}
+/-- `abAfter` on a loop record `l` that `abEnter` has just updated (flag down). -/
+theorem abAfter_range0 (c : Comp σ π) (L : Limits) {Good : Board → Prop} {TTok : σ → Prop} {μ : Board → Nat}
     (hlw : Laws c Good) (sl : ScoreLaws c Good TTok μ) (x : ABCtx) (m : Move) (r : Board.Reverse)
     (l : ABLoop π) (value : Score) (s : St σ) (alpha0 : Int) (h0 : 0 ≤ x.ply) (h1 : x.ply < 63) (htt : TTok s.ps)
     (hgb : Good (s.board.undoMove m r)) (hmb : m ∈ MoveGen.gen (s.board.undoMove m r))
@@ -164,31 +169,71 @@ theorem abAfter_range (c : Comp σ π) (L : Limits) {Good : Board → Prop} {TTo
       · exact ⟨htt', (fun v h => by cases h), fun l' h => by rcases h with h | h <;> cases h; exact hinv⟩
       · exact ⟨htt', (fun v h => by cases h), fun l' h => by rcases h with h | h <;> cases h; exact hinv⟩
 
+omit [PsInv σ] in
+/-- `abAfter` does not touch the ghost flag. -/
+theorem abAfter_nmpOut (c : Comp σ π) (L : Limits) (x : ABCtx) (m : Move) (r : Board.Reverse) (l : ABLoop π)
+    (value : Score) (s : St σ) : (abAfter c L x m r l value s).2.nmpOut = s.nmpOut := by
+  simp only [abAfter]
+  have han : (abort L (s.setBoard (s.board.undoMove m r)).pop).2.nmpOut = s.nmpOut := abort_nmpOut L _
+  generalize abort L (s.setBoard (s.board.undoMove m r)).pop = as at han ⊢
+  split
+  · exact han
+  · split
+    · split
+      · exact han
+      · split <;> exact han
+    · split <;> exact han
+
+/-- `abAfter`, guarded by the ghost flag. -/
+theorem abAfter_range (c : Comp σ π) (L : Limits) {Good : Board → Prop} {TTok : σ → Prop} {μ : Board → Nat}
+    (hlw : Laws c Good) (sl : ScoreLaws c Good TTok μ) (x : ABCtx) (m : Move) (r : Board.Reverse)
+    (l : ABLoop π) (value : Score) (s : St σ) (alpha0 : Int) (h0 : 0 ≤ x.ply) (h1 : x.ply < 63) (htt : TTA TTok s)
+    (hgb : Good (s.board.undoMove m r)) (hmb : m ∈ MoveGen.gen (s.board.undoMove m r))
+    (hv : s.aborted = false → s.nmpOut = false → RelP x.ply value) (hleg : l.hasLegal = true)
+    (hn : s.nmpOut = false → -32767 ≤ l.alpha ∧ l.alpha ≤ 10000 ∧ (InR l.maxim ∨ l.maxim = -10001) ∧
+      (RelP x.ply l.maxim ∨ l.maxim = -10001) ∧ l.quietCnt ≤ l.moveCnt ∧ 1 ≤ l.moveCnt ∧
+      (l.failLow = true → l.alpha = alpha0 ∧ (l.maxim = -10001 ∨ l.maxim ≤ l.alpha))) :
+    let o := abAfter c L x m r l value s
+    TTA TTok o.2 ∧ (∀ v, o.1 = .ret v → o.2.aborted = false → o.2.nmpOut = false → RelP x.ply v) ∧
+      (∀ l', (o.1 = .cont l' ∨ o.1 = .brk l') → o.2.nmpOut = false → ABInv x.ply alpha0 l') := by
+  intro o
+  have han : o.2.nmpOut = s.nmpOut := abAfter_nmpOut c L x m r l value s
+  have hsp := abAfter_spec c L hlw x m r l value s hgb hmb
+  have core := fun (hA : s.nmpOut = false) =>
+    abAfter_range0 c L hlw sl x m r l value s alpha0 h0 h1 (htt.2 hA) hgb hmb (fun hab => hv hab hA)
+      (hn hA).1 (hn hA).2.1 (hn hA).2.2.1 (hn hA).2.2.2.1 (hn hA).2.2.2.2.1 (hn hA).2.2.2.2.2.1 hleg (hn hA).2.2.2.2.2.2
+  refine ⟨⟨hsp.1.ps_ok htt.1, fun hA => (core (by rw [← han]; exact hA)).1⟩,
+    fun v hv' hna hA => (core (by rw [← han]; exact hA)).2.1 v hv' hna,
+    fun l' hl' hA => (core (by rw [← han]; exact hA)).2.2 l' hl'⟩
+
 theorem abLoop_range (c : Comp σ π) (L : Limits) {Good : Board → Prop} {TTok : σ → Prop} {μ : Board → Nat}
     (hl : Laws c Good) (sl : ScoreLaws c Good TTok μ) (child : Child σ)
     (hc : ABSpec c L Good child) (hr : ABRange Good TTok child) (x : ABCtx) (h0 : 0 ≤ x.ply) (h1 : x.ply < 63)
-    (hb1 : -10000 ≤ x.beta) (hb2 : x.beta ≤ 32767) (hmv : Move) (alpha0 : Int) :
+    (hmv : Move) (alpha0 : Int) :
     ∀ (n : Nat) (l : ABLoop π) (s : St σ), Good s.board → s.board.fifty < 100 → HashOK c s.board hmv →
-      Reach c s.board hmv l.pick l.yielded → TTok s.ps → ABInv x.ply alpha0 l →
+      Reach c s.board hmv l.pick l.yielded → TTA TTok s →
+      (s.nmpOut = false → -10000 ≤ x.beta ∧ x.beta ≤ 32767 ∧ ABInv x.ply alpha0 l) →
       (l.bestMove = 0 ∨ l.bestMove ∈ MoveGen.gen s.board) →
       let o := abLoop c L child x n l s
-      TTok o.2.ps ∧ (∀ v, o.1 = .ret v → o.2.aborted = false → RelP x.ply v) ∧
-        (∀ l', o.1 = .done l' → ABInv x.ply alpha0 l' ∧ (l'.bestMove = 0 ∨ l'.bestMove ∈ MoveGen.gen s.board) ∧
-          o.2.board = s.board) := by
+      TTA TTok o.2 ∧ (∀ v, o.1 = .ret v → o.2.aborted = false → o.2.nmpOut = false → RelP x.ply v) ∧
+        (∀ l', o.1 = .done l' → (o.2.nmpOut = false → ABInv x.ply alpha0 l') ∧
+          (l'.bestMove = 0 ∨ l'.bestMove ∈ MoveGen.gen s.board) ∧ o.2.board = s.board) := by
   intro n
   induction n with
-  | zero => intro l s _ _ _ _ htt _ _; exact ⟨htt, (fun v _ h => by cases h), fun l' h => by cases h⟩
+  | zero => intro l s _ _ _ _ htt _ _; exact ⟨⟨htt.1, htt.2⟩, (fun v _ h => by cases h), fun l' h => by cases h⟩
   | succ n ih =>
     intro l s hg hfl hhash hreach htt hinv hbest
     simp only [abLoop]
     split
-    · exact ⟨htt, (fun v h => by cases h), fun l' h => by cases h; exact ⟨hinv, hbest, rfl⟩⟩
+    · exact ⟨htt, (fun v h => by cases h), fun l' h => by cases h; exact ⟨fun hA => (hinv hA).2.2, hbest, rfl⟩⟩
     · next m pk hpick =>
-      have hmem : m ∈ MoveGen.gen s.board := hl.pick_mem _ _ _ _ _ _ _ _ hg hhash hreach (sl.tt_ok _ htt) hpick
-      have hreach' : Reach c s.board hmv pk (m :: l.yielded) := Reach.next hreach (sl.tt_ok _ htt) hpick
+      have hmem : m ∈ MoveGen.gen s.board := hl.pick_mem _ _ _ _ _ _ _ _ hg hhash hreach htt.1 hpick
+      have hreach' : Reach c s.board hmv pk (m :: l.yielded) := Reach.next hreach htt.1 hpick
       have hu := hl.undo_make s.board m hg hmem
-      have hinv0 : ABInv x.ply alpha0 { l with pick := pk, yielded := m :: l.yielded } :=
-        ⟨hinv.a1, hinv.a2, hinv.m1, hinv.mp, hinv.m0, hinv.qc, hinv.mc, hinv.lo, hinv.fl⟩
+      have hinv0 : s.nmpOut = false → -10000 ≤ x.beta ∧ x.beta ≤ 32767 ∧
+          ABInv x.ply alpha0 { l with pick := pk, yielded := m :: l.yielded } := fun hA => by
+        obtain ⟨hb1, hb2, hi⟩ := hinv hA
+        exact ⟨hb1, hb2, hi.a1, hi.a2, hi.m1, hi.mp, hi.m0, hi.qc, hi.mc, hi.lo, hi.fl⟩
       split
       · rw [hu, setBoard_self]; exact ih _ s hg hfl hhash hreach' htt hinv0 hbest
       · next hchk =>
@@ -202,52 +247,59 @@ theorem abLoop_range (c : Comp σ π) (L : Limits) {Good : Board → Prop} {TTok
         have e_mc : l2.moveCnt = l.moveCnt + 1 := by rw [← hl2]; rfl
         have e_qc : l2.quietCnt ≤ l.quietCnt + 1 ∧ l.quietCnt ≤ l2.quietCnt := by
           rw [← hl2]; simp only [abEnter]; split <;> omega
-        have hmx : InR l2.maxim ∨ l2.maxim = -10001 := by
-          rw [e_maxim]
-          cases hh : l.hasLegal
-          · exact Or.inr (hinv.m0 hh)
-          · exact Or.inl (hinv.m1 hh)
-        have hmxp : RelP x.ply l2.maxim ∨ l2.maxim = -10001 := by
-          rw [e_maxim]
-          cases hh : l.hasLegal
-          · exact Or.inr (hinv.m0 hh)
-          · exact Or.inl (hinv.mp hh)
-        have hlow : 2 ≤ l2.quietCnt → -10000 ≤ l2.alpha := by
-          intro h2; rw [e_alpha]; exact hinv.lo (by have := hinv.qc; omega)
-        have hfl2 : l2.failLow = true → l2.alpha = alpha0 ∧ (l2.maxim = -10001 ∨ l2.maxim ≤ l2.alpha) := by
-          intro h
-          rw [e_fl] at h
-          rw [e_alpha, e_maxim]
-          refine ⟨(hinv.fl h).1, ?_⟩
-          cases hh : l.hasLegal
-          · exact Or.inl (hinv.m0 hh)
-          · exact Or.inr ((hinv.fl h).2 hh)
+        -- what the invariant says about the loop record after `abEnter`
+        have hn2 : s.nmpOut = false → -32767 ≤ l2.alpha ∧ l2.alpha ≤ 10000 ∧ (InR l2.maxim ∨ l2.maxim = -10001) ∧
+            (RelP x.ply l2.maxim ∨ l2.maxim = -10001) ∧ l2.quietCnt ≤ l2.moveCnt ∧ 1 ≤ l2.moveCnt ∧
+            (l2.failLow = true → l2.alpha = alpha0 ∧ (l2.maxim = -10001 ∨ l2.maxim ≤ l2.alpha)) := fun hA => by
+          obtain ⟨_, _, hi⟩ := hinv hA
+          refine ⟨by rw [e_alpha]; exact hi.a1, by rw [e_alpha]; exact hi.a2, ?_, ?_,
+            by rw [e_mc]; have := hi.qc; omega, by rw [e_mc]; have := hi.mc; omega, ?_⟩
+          · rw [e_maxim]
+            cases hh : l.hasLegal
+            · exact Or.inr (hi.m0 hh)
+            · exact Or.inl (hi.m1 hh)
+          · rw [e_maxim]
+            cases hh : l.hasLegal
+            · exact Or.inr (hi.m0 hh)
+            · exact Or.inl (hi.mp hh)
+          · intro h
+            rw [e_fl] at h
+            rw [e_alpha, e_maxim]
+            refine ⟨(hi.fl h).1, ?_⟩
+            cases hh : l.hasLegal
+            · exact Or.inl (hi.m0 hh)
+            · exact Or.inr ((hi.fl h).2 hh)
+        have hnm : s.nmpOut = false → -32767 ≤ l2.alpha ∧ l2.alpha ≤ 10000 ∧ (2 ≤ l2.quietCnt → -10000 ≤ l2.alpha) ∧
+            -10000 ≤ x.beta ∧ x.beta ≤ 32767 := fun hA => by
+          obtain ⟨hb1, hb2, hi⟩ := hinv hA
+          refine ⟨by rw [e_alpha]; exact hi.a1, by rw [e_alpha]; exact hi.a2, fun h2 => ?_, hb1, hb2⟩
+          rw [e_alpha]; exact hi.lo (by have := hi.qc; omega)
         have hsm := searchMove_spec c L child hc x l2 (nextNodeType x.nt l2.moveCnt)
           ((s.setBoard (s.board.makeMove c.keys m).1).push
-            { piece := s.board.pieceAt (Move.src m), to := Move.dst m, score := x.staticEval }) hg' (sl.tt_ok _ htt) h0 h1
+            { piece := s.board.pieceAt (Move.src m), to := Move.dst m, score := x.staticEval }) hg' htt.1 h0 h1
         have hsr := searchMove_range c L sl child hc hr x l2 (nextNodeType x.nt l2.moveCnt)
           ((s.setBoard (s.board.makeMove c.keys m).1).push
-            { piece := s.board.pieceAt (Move.src m), to := Move.dst m, score := x.staticEval }) hg' h0 h1 htt
-          (by rw [e_alpha]; exact hinv.a1) (by rw [e_alpha]; exact hinv.a2) hlow hb1 hb2
+            { piece := s.board.pieceAt (Move.src m), to := Move.dst m, score := x.staticEval }) hg' h0 h1
+          (htt.congr rfl rfl) hnm
         simp only at hsm hsr
         generalize searchMove c child x l2 (nextNodeType x.nt l2.moveCnt)
           ((s.setBoard (s.board.makeMove c.keys m).1).push
             { piece := s.board.pieceAt (Move.src m), to := Move.dst m, score := x.staticEval }) = r at hsm hsr ⊢
         have hub : r.2.board.undoMove m (s.board.makeMove c.keys m).2 = s.board := by
           rw [hsm.1.board]; simpa using hu
+        have hback : r.2.nmpOut = false → s.nmpOut = false := fun h => hsm.1.mono.a_back h
         have ha := abAfter_spec c L hl x m (s.board.makeMove c.keys m).2 l2 r.1 r.2
           (by rw [hub]; exact hg) (by rw [hub]; exact hmem)
         have hbm := abAfter_best c L x m (s.board.makeMove c.keys m).2 l2 r.1 r.2
         have har := abAfter_range c L hl sl x m (s.board.makeMove c.keys m).2 l2 r.1 r.2 alpha0 h0 h1 hsr.1
-          (by rw [hub]; exact hg) (by rw [hub]; exact hmem) hsr.2
-          (by rw [e_alpha]; exact hinv.a1) (by rw [e_alpha]; exact hinv.a2) hmx hmxp
-          (by rw [e_mc]; have := hinv.qc; omega) (by rw [e_mc]; have := hinv.mc; omega) e_leg hfl2
+          (by rw [hub]; exact hg) (by rw [hub]; exact hmem) hsr.2 e_leg (fun hA => hn2 (hback hA))
         simp only at ha har
         generalize abAfter c L x m (s.board.makeMove c.keys m).2 l2 r.1 r.2 = o at ha har hbm ⊢
         obtain ⟨hsf, _, _⟩ := hsm
-        obtain ⟨_, hb1', _, _, _, hpick'⟩ := ha
+        obtain ⟨hm1, hb1', _, _, _, hpick'⟩ := ha
         obtain ⟨htt', hret, hcb⟩ := har
         have hboard : o.2.board = s.board := by rw [hb1', hsf.board]; simpa using hu
+        have hback2 : o.2.nmpOut = false → s.nmpOut = false := fun h => hback (hm1.a_back h)
         have hbest2 : ∀ l', (o.1 = .cont l' ∨ o.1 = .brk l') → l'.bestMove = 0 ∨ l'.bestMove ∈ MoveGen.gen s.board := by
           intro l' h'
           have e2 : l2.bestMove = l.bestMove := by rw [← hl2]; rfl
@@ -257,66 +309,92 @@ theorem abLoop_range (c : Comp σ π) (L : Limits) {Good : Board → Prop} {TTok
         obtain ⟨st, s'⟩ := o
         cases st with
         | ret v =>
-          refine ⟨htt', fun y hy hna => ?_, (fun l' h => by cases h)⟩
+          refine ⟨htt', fun y hy hna hA => ?_, (fun l' h => by cases h)⟩
           have : v = y := by simpa using hy
-          subst this; exact hret v rfl hna
+          subst this; exact hret v rfl hna hA
         | brk l' =>
           refine ⟨htt', (fun v h => by cases h), fun l'' h => ?_⟩
           have : l' = l'' := by simpa using h
           subst this; exact ⟨hcb l' (Or.inr rfl), hbest2 l' (Or.inr rfl), hboard⟩
         | cont l' =>
-          simp only at hboard htt' ⊢
+          simp only at hboard htt' hback2 hcb ⊢
           have hr2 : Reach c s'.board hmv l'.pick l'.yielded := by
             obtain ⟨hy, w, hw⟩ := hpick' l' (Or.inl rfl)
             rw [hboard, hy, hw, ← hl2]
             exact Reach.weight hreach'
           have := ih l' s' (by rw [hboard]; exact hg) (by rw [hboard]; exact hfl) (by rw [hboard]; exact hhash) hr2 htt'
-            (hcb l' (Or.inl rfl)) (by rw [hboard]; exact hbest2 l' (Or.inl rfl))
+            (fun hA => ⟨(hinv (hback2 hA)).1, (hinv (hback2 hA)).2.1, hcb l' (Or.inl rfl) hA⟩)
+            (by rw [hboard]; exact hbest2 l' (Or.inl rfl))
           rw [hboard] at this
           exact this
 
-theorem nullMove_range (c : Comp σ π) {Good : Board → Prop} {TTok : σ → Prop} (hl : Laws c Good) (child : Child σ)
+omit [PsInv σ] in
+theorem flag_false {s : St σ} {a : Bool} (h : (s.flagNmp a).nmpOut = false) : s.nmpOut = false ∧ a = false := by
+  have : (s.nmpOut || a) = false := h
+  simpa using this
+
+theorem nullMove_range (c : Comp σ π) (L : Limits) {Good : Board → Prop} {TTok : σ → Prop} (hl : Laws c Good)
+    (child : Child σ) (hc : ABSpec c L Good child)
     (hr : ABRange Good TTok child) (beta : Score) (d : Int) {ply : Int} (h0 : 0 ≤ ply) (h1 : ply < 63) (se : Score)
-    (s : St σ) (hg : Good s.board) (hchk : s.board.inCheck s.board.stm = false) (htt : TTok s.ps)
-    (hb1 : -9936 ≤ beta) (hb2 : beta ≤ 9936) :
+    (s : St σ) (hg : Good s.board) (hchk : s.board.inCheck s.board.stm = false) (htt : TTA TTok s)
+    (hb : s.nmpOut = false → -10000 ≤ beta ∧ beta ≤ 9936) :
     let o := nullMove c child beta d ply se s
-    TTok o.2.ps ∧ (∀ v, o.1 = some v → o.2.aborted = false → RelP ply v) := by
+    TTA TTok o.2 ∧ (∀ v, o.1 = some v → o.2.aborted = false → o.2.nmpOut = false → RelP ply v) := by
   simp only [nullMove]
   have hg' := hl.good_null s.board hg hchk
+  have cc := callChild_post c L child hc (neg beta) (wrapS16 (neg beta + 1)) (c.nmpDepth d se beta) h0 h1 .cut
+    (s.setBoard (s.board.makeNull c.keys).1) hg' htt.1
   have rr := callChild_range child hr (neg beta) (wrapS16 (neg beta + 1)) (c.nmpDepth d se beta) h0 h1 .cut
-    (s.setBoard (s.board.makeNull c.keys).1) hg' (winOK_nmp (Int.le_trans (by decide) hb1) (Int.le_trans hb2 (by decide))) htt
-  simp only at rr
+    (s.setBoard (s.board.makeNull c.keys).1) hg'
+    (fun hA => winOK_nmp (hb hA).1 (Int.le_trans (hb hA).2 (by decide))) (htt.congr rfl rfl)
+  simp only at rr cc
   generalize callChild child (neg beta) (wrapS16 (neg beta + 1)) (c.nmpDepth d se beta) (wrapS8 (ply + 1)) .cut
-    (s.setBoard (s.board.makeNull c.keys).1) = r at rr ⊢
+    (s.setBoard (s.board.makeNull c.keys).1) = r at rr cc ⊢
+  have hback : r.2.nmpOut = false → s.nmpOut = false := fun h => cc.1.mono.a_back h
   split
-  · refine ⟨rr.1, fun v hv hna => ?_⟩
+  · refine ⟨⟨rr.1.1, fun hA => rr.1.2 (flag_false hA).1⟩, fun v hv hna hA => ?_⟩
+    obtain ⟨hAr, hfl⟩ := flag_false hA
     simp only [Option.some.injEq] at hv
     subst hv
     split
-    · unfold RelP hiP; simp only [Score] at *; omega
-    · exact rr.2 hna
+    · next hge =>
+      -- the mate branch: the flag is down, so `beta` is not below the mated-at-this-ply score
+      have hnb : ¬ (beta < -Inf + ply) := by
+        intro hlt
+        have h1' : decide (r.1 ≥ Inf - maxPlies) = true := decide_eq_true hge
+        have h2' : decide (beta < -Inf + ply) = true := decide_eq_true hlt
+        rw [h1', h2'] at hfl
+        cases hfl
+      have hub := (hb (hback hAr)).2
+      unfold RelP hiP
+      rw [Inf_eq] at hnb
+      simp only [Score] at *
+      omega
+    · exact rr.2 hna hAr
   · exact ⟨rr.1, fun v hv => by cases hv⟩
 
 theorem abMoves_range (c : Comp σ π) (L : Limits) {Good : Board → Prop} {TTok : σ → Prop} {μ : Board → Nat}
     (hl : Laws c Good) (sl : ScoreLaws c Good TTok μ) (child : Child σ)
-    (hc : ABSpec c L Good child) (hr : ABRange Good TTok child) (alpha beta : Score) (hw : WinOK alpha beta) (d : Int)
+    (hc : ABSpec c L Good child) (hr : ABRange Good TTok child) (alpha beta : Score) (d : Int)
     {ply : Int} (h0 : 0 ≤ ply) (h1 : ply < 63)
     (nt : NodeType) (inCheck improving : Bool) (se : Score) (hm : Move) (s : St σ) (hg : Good s.board)
-    (hfl : s.board.fifty < 100) (hhash : HashOK c s.board hm) (htt : TTok s.ps) :
+    (hw : s.nmpOut = false → WinOK alpha beta)
+    (hfl : s.board.fifty < 100) (hhash : HashOK c s.board hm) (htt : TTA TTok s) :
     let o := abMoves c L child alpha beta d ply nt inCheck improving se hm s
-    TTok o.2.ps ∧ (o.2.aborted = false → RelP ply o.1) := by
+    TTA TTok o.2 ∧ (o.2.aborted = false → o.2.nmpOut = false → RelP ply o.1) := by
   simp only [abMoves]
   generalize hx : ABCtx.mk alpha beta (if c.iir nt d hm then wrapS8 (d - 1) else d) ply nt inCheck improving se = x
   have hxp : x.ply = ply := by rw [← hx]
   have hxb : x.beta = beta := by rw [← hx]
-  obtain ⟨hw1, hw2, hw3, hw4⟩ := hw
-  have h := abLoop_range c L hl sl child hc hr x (by rw [hxp]; exact h0) (by rw [hxp]; exact h1)
-    (by rw [hxb]; exact hw3) (by rw [hxb]; exact hw4) hm alpha
+  have h := abLoop_range c L hl sl child hc hr x (by rw [hxp]; exact h0) (by rw [hxp]; exact h1) hm alpha
     ((MoveGen.gen s.board).length + 1)
     { alpha := alpha, bestMove := 0, hasLegal := false, failLow := true, maxim := -Inf - 1, moveCnt := 0, quietCnt := 0,
-      pick := c.pickInit s.board hm, yielded := [] } s.pushFrame hg hfl hhash Reach.init htt
-    ⟨hw1, hw2, (fun h => by cases h), (fun h => by cases h), (fun _ => rfl), Int.le_refl _, Int.le_refl _, (fun h => by simp at h),
-     fun _ => ⟨rfl, fun h => by cases h⟩⟩ (Or.inl rfl)
+      pick := c.pickInit s.board hm, yielded := [] } s.pushFrame hg hfl hhash Reach.init (htt.congr rfl rfl)
+    (fun hA => by
+      obtain ⟨hw1, hw2, hw3, hw4⟩ := hw hA
+      exact ⟨by rw [hxb]; exact hw3, by rw [hxb]; exact hw4, hw1, hw2, (fun h => by cases h), (fun h => by cases h),
+        (fun _ => rfl), Int.le_refl _, Int.le_refl _, (fun h => by simp at h), fun _ => ⟨rfl, fun h => by cases h⟩⟩)
+    (Or.inl rfl)
   simp only [hxp] at h
   generalize abLoop c L child x ((MoveGen.gen s.board).length + 1)
     { alpha := alpha, bestMove := 0, hasLegal := false, failLow := true, maxim := -Inf - 1, moveCnt := 0, quietCnt := 0,
@@ -324,7 +402,7 @@ theorem abMoves_range (c : Comp σ π) (L : Limits) {Good : Board → Prop} {TTo
   obtain ⟨htt', hret, hdone⟩ := h
   obtain ⟨fl, s'⟩ := r
   cases fl with
-  | ret v => exact ⟨htt', fun hna => hret v rfl hna⟩
+  | ret v => exact ⟨htt', fun hna hA => hret v rfl hna hA⟩
   | done l =>
     obtain ⟨hinv, hbest, hbrd⟩ := hdone l rfl
     have hgb : Good s'.popFrame.board := by
@@ -335,36 +413,46 @@ theorem abMoves_range (c : Comp σ π) (L : Limits) {Good : Board → Prop} {TTo
       have : s'.board = s.board := hbrd
       show l.bestMove = 0 ∨ l.bestMove ∈ MoveGen.gen s'.board
       rw [this]; exact hbest
-    have hok' := sl.tt_ok _ htt'
-    simp only [flag_ps, setPs_ps]
+    have hok' : PsInv.ok s'.popFrame.ps := htt'.1
+    -- the flag after the store is the flag of the loop's last state, possibly raised at ply 0
+    have hA' : ∀ {ps : σ} {a : Bool}, ((s'.popFrame.setPs ps).flag a).nmpOut = false → s'.nmpOut = false :=
+      fun h => h
+    simp only
     cases hh : l.hasLegal
     · have hmx : RelP ply (if inCheck = true then wrapS16 (-Inf + ply) else 0) := by
         split
         · exact relP_mate h0 (by omega)
         · exact relP_zero _
       simp only [Bool.not_false, if_true, Bool.false_eq_true, if_false]
-      exact ⟨sl.tt_store _ _ _ _ _ _ _ htt' h0 (by omega) hmx (hl.ok_store _ _ _ _ _ _ _ hok' hgb hbest'), fun _ => hmx⟩
-    · have hmx := hinv.mp hh
-      simp only [Bool.not_true, Bool.false_eq_true, if_false]
-      refine ⟨?_, fun _ => hmx⟩
+      have hok2 := hl.ok_store s'.popFrame.ps s'.popFrame.board (if c.iir nt d hm then wrapS8 (d - 1) else d) ply
+        l.bestMove (if inCheck = true then wrapS16 (-Inf + ply) else 0) .exact hok' hgb hbest'
+      exact ⟨⟨hok2, fun hA => sl.tt_store _ _ _ _ _ _ _ (htt'.2 (hA' hA)) h0 (by omega) hmx hok2⟩, fun _ _ => hmx⟩
+    · simp only [Bool.not_true, Bool.false_eq_true, if_false]
+      refine ⟨?_, fun _ hA => (hinv (hA' hA)).mp hh⟩
       split
-      · exact sl.tt_store _ _ _ _ _ _ _ htt' h0 (by omega) hmx (hl.ok_store _ _ _ _ _ _ _ hok' hgb (Or.inl rfl))
-      · exact sl.tt_store _ _ _ _ _ _ _ htt' h0 (by omega) hmx (hl.ok_store _ _ _ _ _ _ _ hok' hgb hbest')
+      · have hok2 := hl.ok_store s'.popFrame.ps s'.popFrame.board (if c.iir nt d hm then wrapS8 (d - 1) else d) ply
+          0 l.maxim .upper hok' hgb (Or.inl rfl)
+        exact ⟨hok2, fun hA => sl.tt_store _ _ _ _ _ _ _ (htt'.2 (hA' hA)) h0 (by omega) ((hinv (hA' hA)).mp hh) hok2⟩
+      · have hok2 := hl.ok_store s'.popFrame.ps s'.popFrame.board (if c.iir nt d hm then wrapS8 (d - 1) else d) ply
+          l.bestMove l.maxim .exact hok' hgb hbest'
+        exact ⟨hok2, fun hA => sl.tt_store _ _ _ _ _ _ _ (htt'.2 (hA' hA)) h0 (by omega) ((hinv (hA' hA)).mp hh) hok2⟩
 
 theorem abPrune_range (c : Comp σ π) (L : Limits) {Good : Board → Prop} {TTok : σ → Prop} {μ : Board → Nat}
     (hl : Laws c Good) (sl : ScoreLaws c Good TTok μ) (child : Child σ)
-    (hc : ABSpec c L Good child) (hr : ABRange Good TTok child) (alpha beta : Score) (hw : WinOK alpha beta) (d : Int)
+    (hc : ABSpec c L Good child) (hr : ABRange Good TTok child) (alpha beta : Score) (d : Int)
     {ply : Int} (h0 : 0 ≤ ply) (h1 : ply < 63)
     (nt : NodeType) (inCheck improving : Bool) (se : Score) (hse : inCheck = false → -9935 ≤ se ∧ se ≤ 9935) (hm : Move) (s : St σ)
+    (hw : s.nmpOut = false → WinOK alpha beta)
     (hg : Good s.board) (hfl : s.board.fifty < 100) (hhash : HashOK c s.board hm)
-    (hic : inCheck = s.board.inCheck s.board.stm) (htt : TTok s.ps) :
+    (hic : inCheck = s.board.inCheck s.board.stm) (htt : TTA TTok s) :
     let o := abPrune c L child alpha beta d ply nt inCheck improving se hm s
-    TTok o.2.ps ∧ (o.2.aborted = false → RelP ply o.1) := by
+    TTA TTok o.2 ∧ (o.2.aborted = false → o.2.nmpOut = false → RelP ply o.1) := by
   simp only [abPrune]
   split
   · next hrfp =>
     have : inCheck = false := by cases inCheck <;> simp_all
-    exact ⟨htt, fun _ => by have := hse this; unfold RelP hiP; simp only [Score] at *; omega⟩
+    refine ⟨htt.congr rfl rfl, fun _ _ => ?_⟩
+    have := hse this; unfold RelP hiP; simp only [Score] at *; omega
   · split
     · next hnm =>
       have hic' : inCheck = false := by cases inCheck <;> simp_all
@@ -373,72 +461,77 @@ theorem abPrune_range (c : Comp σ π) (L : Limits) {Good : Board → Prop} {TTo
         simp only [Bool.and_eq_true] at hnm; exact hnm.2
       have hbse : (beta : Int) ≤ se := sl.nmp_sound _ _ _ _ hnmp
       have hb2 : beta ≤ 9936 := Int.le_trans hbse (Int.le_trans (hse hic').2 (by decide))
-      have hb1 : -9936 ≤ beta := sl.nmp_floor _ _ _ _ hnmp
-      have hn := nullMove_spec c L hl child hc beta d h0 h1 se s hg (sl.tt_ok _ htt) hchk
-      have hnr := nullMove_range c hl child hr beta d h0 h1 se s hg hchk htt hb1 hb2
+      have hn := nullMove_spec c L hl child hc beta d h0 h1 se s hg htt.1 hchk
+      have hnr := nullMove_range c L hl child hc hr beta d h0 h1 se s hg hchk htt (fun hA => ⟨(hw hA).2.2.1, hb2⟩)
       simp only at hn hnr
       generalize nullMove c child beta d ply se s = nm at hn hnr ⊢
       split
-      · next v hv => exact ⟨hnr.1, fun hna => hnr.2 v hv hna⟩
-      · exact abMoves_range c L hl sl child hc hr alpha beta hw d h0 h1 nt inCheck improving se hm nm.2
-          (by rw [hn.1.board]; exact hg) (by rw [hn.1.board]; exact hfl) (by rw [hn.1.board]; exact hhash) hnr.1
-    · exact abMoves_range c L hl sl child hc hr alpha beta hw d h0 h1 nt inCheck improving se hm s hg hfl hhash htt
+      · next v hv => exact ⟨hnr.1, fun hna hA => hnr.2 v hv hna hA⟩
+      · exact abMoves_range c L hl sl child hc hr alpha beta d h0 h1 nt inCheck improving se hm nm.2
+          (by rw [hn.1.board]; exact hg) (fun hA => hw (hn.1.mono.a_back hA))
+          (by rw [hn.1.board]; exact hfl) (by rw [hn.1.board]; exact hhash) hnr.1
+    · exact abMoves_range c L hl sl child hc hr alpha beta d h0 h1 nt inCheck improving se hm s hg hw hfl hhash htt
 
 theorem abBody_range (c : Comp σ π) (L : Limits) {Good : Board → Prop} {TTok : σ → Prop} {μ : Board → Nat}
     (hl : Laws c Good) (sl : ScoreLaws c Good TTok μ) (child : Child σ)
-    (hc : ABSpec c L Good child) (hr : ABRange Good TTok child) (alpha beta : Score) (hw : WinOK alpha beta) (d : Int)
-    {ply : Int} (h0 : 0 ≤ ply) (h1 : ply < 63) (nt : NodeType) (s : St σ) (hg : Good s.board)
-    (hfl : s.board.fifty < 100) (htt : TTok s.ps) :
+    (hc : ABSpec c L Good child) (hr : ABRange Good TTok child) (alpha beta : Score) (d : Int)
+    {ply : Int} (h0 : 0 ≤ ply) (h1 : ply < 63) (nt : NodeType) (s : St σ) (hw : s.nmpOut = false → WinOK alpha beta)
+    (hg : Good s.board)
+    (hfl : s.board.fifty < 100) (htt : TTA TTok s) :
     let o := abBody c L child alpha beta d ply nt s
-    TTok o.2.ps ∧ (o.2.aborted = false → RelP ply o.1) := by
+    TTA TTok o.2 ∧ (o.2.aborted = false → o.2.nmpOut = false → RelP ply o.1) := by
   simp only [abBody]
   split
   · next v hcut =>
-    refine ⟨htt, fun _ => ?_⟩
+    refine ⟨htt, fun _ hA => ?_⟩
     split at hcut
     · next e he =>
       split at hcut
-      · exact ttCut_relP (sl.tt_probe _ _ _ _ htt h0 (by omega) he) hcut
+      · exact ttCut_relP (sl.tt_probe _ _ _ _ (htt.2 hA) h0 (by omega) he) hcut
       · cases hcut
     · cases hcut
-  · refine abPrune_range c L hl sl child hc hr alpha beta hw d h0 h1 nt _ _ _ ?_ _ s hg hfl
-      (hashOK_probe c (sl.tt_ok _ htt) s.board ply) rfl htt
+  · refine abPrune_range c L hl sl child hc hr alpha beta d h0 h1 nt _ _ _ ?_ _ s hw hg hfl
+      (hashOK_probe c htt.1 s.board ply) rfl htt
     intro h
     simp only [h, Bool.false_eq_true, if_false]
     exact eval_band c s.board
 
-/-- The main range theorem: for every fuel, `alphaBeta` returns an in-range value when it returns
-    un-aborted, and never breaks the table predicate. -/
+/-- The main range theorem: for every fuel, `alphaBeta` returns a ply-consistent value when it returns
+    un-aborted with the ghost flag down, and keeps the table predicate as long as the flag is down. -/
 theorem alphaBeta_range (c : Comp σ π) (L : Limits) {Good : Board → Prop} {TTok : σ → Prop} {μ : Board → Nat}
     (hl : Laws c Good) (sl : ScoreLaws c Good TTok μ) (fuel : Nat) :
     ABRange Good TTok (alphaBeta c L fuel) := by
   induction fuel with
-  | zero => intro a b d ply nt s _ _ _ _ htt; exact ⟨htt, fun h => by cases h⟩
+  | zero => intro a b d ply nt s _ _ _ _ htt; exact ⟨htt.congr rfl rfl, fun h => by cases h⟩
   | succ fuel ih =>
     intro a b d ply nt s hg h0 h63 hw htt
     simp only [alphaBeta]
     split
     · have hmu := sl.measure_bound s.board hg
       exact quiescence_range c L hl sl (fuel + 1) a b ply (s.setPv (s.pv.setNull ply.toNat)) hg h0
-        (by simp only [setPv_board]; omega) hw htt
+        (by simp only [setPv_board]; omega) hw (htt.congr rfl rfl)
     · next hq =>
       have h1 : ply < 63 := by simp [maxPlies] at hq; omega
       have i1 := incrementNodes_frame L (s.setPv (s.pv.setNull ply.toNat))
       have ips := incrementNodes_ps L (s.setPv (s.pv.setNull ply.toNat))
-      generalize incrementNodes L (s.setPv (s.pv.setNull ply.toNat)) = s1 at i1 ips ⊢
+      have ian := incrementNodes_nmpOut L (s.setPv (s.pv.setNull ply.toNat))
+      generalize incrementNodes L (s.setPv (s.pv.setNull ply.toNat)) = s1 at i1 ips ian ⊢
       have a1 := abort_frame L { s1 with abNodes := s1.abNodes + 1 }
       have aps := abort_ps L { s1 with abNodes := s1.abNodes + 1 }
+      have aan := abort_nmpOut L { s1 with abNodes := s1.abNodes + 1 }
       have hat := abort_true_iff L { s1 with abNodes := s1.abNodes + 1 }
-      generalize abort L { s1 with abNodes := s1.abNodes + 1 } = as at a1 aps hat ⊢
+      generalize abort L { s1 with abNodes := s1.abNodes + 1 } = as at a1 aps aan hat ⊢
       have hps : as.2.ps = s.ps := by rw [aps]; exact ips
+      have han : as.2.nmpOut = s.nmpOut := by rw [aan]; exact ian
       have hb : as.2.board = s.board := by rw [a1.board]; exact i1.board
+      have htt' : TTA TTok as.2 := htt.congr hps han
       split
-      · next hab => exact ⟨by rw [hps]; exact htt, fun hna => by rw [← hat, hab] at hna; cases hna⟩
+      · next hab => exact ⟨htt', fun hna => by rw [← hat, hab] at hna; cases hna⟩
       · split
-        · exact ⟨by rw [hps]; exact htt, fun _ => relP_zero _⟩
+        · exact ⟨htt', fun _ _ => relP_zero _⟩
         · next hnd =>
-          exact abBody_range c L hl sl (alphaBeta c L fuel) (alphaBeta_spec c L hl fuel) ih a b hw d h0 h1 nt as.2
-            (by rw [hb]; exact hg) (fifty_lt_of_not_draw hnd) (by rw [hps]; exact htt)
+          exact abBody_range c L hl sl (alphaBeta c L fuel) (alphaBeta_spec c L hl fuel) ih a b d h0 h1 nt as.2
+            (fun hA => hw (by rw [← han]; exact hA)) (by rw [hb]; exact hg) (fifty_lt_of_not_draw hnd) htt'
 
 end Search
 end ChessVerif
